@@ -494,6 +494,48 @@ func c16ExitStatus(r *an.Run, m *runModel) {
 		good = combines && m.acc.feeds(sl) && hasRunner
 	}
 	r.Check(good, short(f)+"|final-return", exit.Instrs[0].Pos(), "Run returns multierr.Combine of the per-file errors and the patch runner's errors")
+	// with a named error result, a deferred function can still replace what the return statement put there:
+	// any closure of Run that assigns the result must build on its current value (err = multierr.Append(err, x))
+	for _, b := range f.Blocks {
+		for _, in := range b.Instrs {
+			cell, ok := in.(*ssa.Alloc)
+			if !ok || !an.IsErrorType(cell.Type().Underlying().(*types.Pointer).Elem()) {
+				continue
+			}
+			isResult := false
+			for _, rt := range an.Returns(f) {
+				if len(rt.Results) > 0 {
+					if ld, ok := rt.Results[len(rt.Results)-1].(*ssa.UnOp); ok && ld.X == ssa.Value(cell) {
+						isResult = true
+					}
+				}
+			}
+			if !isResult {
+				continue
+			}
+			for _, g := range f.AnonFuncs {
+				for i, fv := range g.FreeVars {
+					mc := closureBindingOf(f, g, i)
+					if mc != ssa.Value(cell) {
+						continue
+					}
+					for _, st := range an.StoresIn(g) {
+						s2, ok := st.(*ssa.Store)
+						if !ok || s2.Addr != ssa.Value(fv) {
+							continue
+						}
+						keeps := false
+						for v := range an.BackSlice(s2.Val, an.SliceOpts{ThroughCalls: true}) {
+							if ld, ok := v.(*ssa.UnOp); ok && ld.X == ssa.Value(fv) {
+								keeps = true
+							}
+						}
+						r.Check(keeps, short(g)+"|keeps-run-error", s2.Pos(), "a function literal of Run that assigns Run's named error result builds on the value it holds: the errors collected for the files are not replaced after the return statement has stored them")
+					}
+				}
+			}
+		}
+	}
 	rm := fn(r, mainP, "runMain")
 	if rm == nil {
 		return
@@ -715,4 +757,17 @@ func rootErrorCalls(v ssa.Value) []ssa.CallInstruction {
 		}
 	}
 	return out
+}
+
+// closureBindingOf returns the value bound to free variable i of g where f
+// creates the closure.
+func closureBindingOf(f, g *ssa.Function, i int) ssa.Value {
+	for _, b := range f.Blocks {
+		for _, in := range b.Instrs {
+			if mc, ok := in.(*ssa.MakeClosure); ok && mc.Fn == ssa.Value(g) && i < len(mc.Bindings) {
+				return mc.Bindings[i]
+			}
+		}
+	}
+	return nil
 }
